@@ -118,6 +118,16 @@ func (s *JavaRefactorListener) EnterLambdaParameters(ctx *LambdaParametersContex
 	}
 }
 
+func (s *JavaRefactorListener) EnterPrimary(ctx *PrimaryContext) {
+	// a bare name, e.g. a constant that was imported with "import static"
+	if ctx.Identifier() != nil {
+		startLine := ctx.GetStart().GetLine()
+		stopLine := ctx.GetStop().GetLine()
+		field := model.JField{Name: ctx.Identifier().GetText(), Source: node.Pkg, StartLine: startLine, StopLine: stopLine}
+		node.AddField(field)
+	}
+}
+
 func (s *JavaRefactorListener) EnterMethodCall(ctx *MethodCallContext) {
 	text := ctx.Identifier().GetText()
 	startLine := ctx.GetStart().GetLine()
